@@ -502,6 +502,20 @@ def int_in_cons(cons, inside_only=True, native=True):
     return base
 
 
+def _contains_collection(mod, t, _seen=None, _d=0):
+    """does a value of the type hold further SEQUENCE OF / SET OF levels (through structures and references)?"""
+    _seen = _seen or set()
+    if t.kind == "REF":
+        if t.ref in _seen or _d > 10:
+            return True         # recursive: assume yes
+        return _contains_collection(mod, mod.lookup(t.ref), _seen | {t.ref}, _d + 1)
+    if t.kind in ("SEQOF", "SETOF"):
+        return True
+    if t.kind in ("SEQUENCE", "SET", "CHOICE"):
+        return any(_contains_collection(mod, m.type, _seen, _d + 1) for m in t.members)
+    return False
+
+
 def _len_strategy(size, max_len, big):
     if size is None:
         cands = [0, 1, 2, 3, 5, 8, 17]
@@ -743,7 +757,8 @@ def _values(mod, t, cfg, depth=0, max_len=12):
         # nested collections multiply: the outermost may be as long as its constraint allows (16K/64K fragmentation),
         # deeper ones stay short unless their lower bound forces more
         lb_ = rt.size.lb() if rt.size is not None and rt.size.lb() is not None else 0
-        cap_ = 70000 if depth == 0 else (300 if depth == 1 else 24)
+        nested_ = _contains_collection(mod, rt.elem)
+        cap_ = ((40, 8, 3) if nested_ else (70000, 300, 24))[min(depth, 2)]
         cnt = cnt.map(lambda n, lb_=lb_, cap_=cap_: n if n <= max(cap_, lb_) else lb_)
         ev = values(mod, rt.elem, cfg, depth + 1, max_len)
         return cnt.flatmap(lambda n: st.lists(ev, min_size=n, max_size=n) if n <= 16
